@@ -111,7 +111,8 @@ def build_on(a, ds):
     if op == 'cache':
         return ds.cache(lazy=a['lazy'])
     if op == 'catch':
-        return ds.catch(U.CATCH[a['E']])
+        # (warn=True only logs; half of the catch forms use it)
+        return ds.catch(U.CATCH[a['E']], warn=a['E'] in ('Exception', 'FilterOrValue', 'Lookup'))
     if op == 'copy':
         return ds.copy(freeze=a['freeze'])
     if op == 'prefetch':
